@@ -58,7 +58,7 @@ class C14(core.Check):
 
     nshards_quick = 16
     nshards_thorough = 64
-    budget_quick = 400
+    budget_quick = 900
 
     def setup(self, tier):
         self.tmp = tempfile.mkdtemp(prefix='yvm_c14_')
